@@ -68,6 +68,8 @@ Section Accept.
     destruct (Z.eqb_spec (Z.rem (d_len (parse_data pt)) 4) 0) as [E4|E4]; cbn [negb].
     2:{ split; [discriminate|]. intros (_ & _ & _ & _ & _ & -> & _ & H' & _).
         rewrite Z.rem_mod_nonneg in E4 by lia. contradiction. }
+    destruct (Z.ltb_spec (Z.of_nat (length (d_body (parse_data pt))) - d_len (parse_data pt)) c_minPadding).
+    { split; [discriminate|]. intros (_ & _ & _ & _ & _ & -> & _ & _ & H'). lia. }
     destruct (Z.gtb_spec (Z.of_nat (length (d_body (parse_data pt))) - d_len (parse_data pt)) c_maxPadding).
     { split; [discriminate|]. intros (_ & _ & _ & _ & _ & -> & _ & _ & H'). lia. }
     rewrite Z.rem_mod_nonneg in E4 by lia. rewrite Z.rem_mod_nonneg in Er by lia.
@@ -90,7 +92,8 @@ Section Accept.
     destruct (bytes_eqb _ _); cbn [negb]; [|discriminate].
     unfold decode_data. destruct (_ <? 32); [discriminate|]. destruct (_ >? _); [discriminate|].
     cbn [bind]. unfold check_lengths.
-    destruct (_ <? 0); [discriminate|]. destruct (negb _); [discriminate|]. destruct (_ >? _); discriminate.
+    destruct (_ <? 0); [discriminate|]. destruct (negb _); [discriminate|].
+    destruct (_ <? _); [discriminate|]. destruct (_ >? _); discriminate.
   Qed.
 
   (* every result is either a decoded message or an error that carries no data *)
